@@ -2638,12 +2638,24 @@ def transform_compressible(items, constants, labels):
             return imm >= lo and imm <= hi
         return inner
 
+    # labels are still moving while this pass runs: an absolute (non pc-relative)
+    # immediate may only steer compression if it does not depend on any label
+    def ImmIsStatic():
+        def inner(i, p, e):
+            try:
+                i.imm.eval(p, constants, i.line)
+                return True
+            except AssemblerError:
+                return False
+        return inner
+
     criteria = {
         # this has to be first since it collides with c.addi
         'c.addi16sp': [
             NameEquals('addi'),
             RegEquals('rd', 2),
             RegEquals('rs1', 2),
+            ImmIsStatic(),
             ImmNotEquals(0),
             ImmDivisibleBy(16),
             ImmBetween(-2**5 * 16, 2**5 * 16 - 1),
@@ -2652,6 +2664,7 @@ def transform_compressible(items, constants, labels):
             NameEquals('addi'),
             RegBetween('rd', 8, 15),
             RegEquals('rs1', 2),
+            ImmIsStatic(),
             ImmNotEquals(0),
             ImmDivisibleBy(4),
             ImmBetween(0, 2**8 * 4 - 1),
@@ -2660,6 +2673,7 @@ def transform_compressible(items, constants, labels):
             NameEquals('lw'),
             RegBetween('rd', 8, 15),
             RegBetween('rs1', 8, 15),
+            ImmIsStatic(),
             ImmDivisibleBy(4),
             ImmBetween(0, 2**5 * 4 - 1),
         ],
@@ -2667,6 +2681,7 @@ def transform_compressible(items, constants, labels):
             NameEquals('sw'),
             RegBetween('rs1', 8, 15),
             RegBetween('rs2', 8, 15),
+            ImmIsStatic(),
             ImmDivisibleBy(4),
             ImmBetween(0, 2**5 * 4 - 1),
         ],
@@ -2674,6 +2689,7 @@ def transform_compressible(items, constants, labels):
             NameEquals('addi'),
             RegEquals('rd', 0),
             RegEquals('rs1', 0),
+            ImmIsStatic(),
             ImmEquals(0),
         ],
         'c.addi': [
@@ -2681,6 +2697,7 @@ def transform_compressible(items, constants, labels):
             RegNotEquals('rd', 0),
             RegNotEquals('rs1', 0),
             RegsMatch('rd', 'rs1'),
+            ImmIsStatic(),
             ImmNotEquals(0),
             ImmBetween(-2**5, 2**5 - 1),
         ],
@@ -2694,12 +2711,14 @@ def transform_compressible(items, constants, labels):
             NameEquals('addi'),
             RegNotEquals('rd', 0),
             RegEquals('rs1', 0),
+            ImmIsStatic(),
             ImmBetween(-2**5, 2**5 - 1),
         ],
         'c.lui': [
             NameEquals('lui'),
             RegNotEquals('rd', 0),
             RegNotEquals('rd', 2),
+            ImmIsStatic(),
             ImmNotEquals(0),
             ImmBetween(-2**5, 2**5 - 1),
         ],
@@ -2708,6 +2727,7 @@ def transform_compressible(items, constants, labels):
             NameEquals('lui'),
             RegNotEquals('rd', 0),
             RegNotEquals('rd', 2),
+            ImmIsStatic(),
             ImmNotEquals(0),
             ImmBetween(0xfffe0, 0xfffff),
         ],
@@ -2732,6 +2752,7 @@ def transform_compressible(items, constants, labels):
             RegBetween('rd', 8, 15),
             RegBetween('rs1', 8, 15),
             RegsMatch('rd', 'rs1'),
+            ImmIsStatic(),
             ImmBetween(-2**5, 2**5 - 1),
         ],
         'c.sub': [
@@ -2794,6 +2815,7 @@ def transform_compressible(items, constants, labels):
             NameEquals('lw'),
             RegNotEquals('rd', 0),
             RegEquals('rs1', 2),
+            ImmIsStatic(),
             ImmDivisibleBy(4),
             ImmBetween(0, 2**6 * 4 - 1),
         ],
@@ -2801,6 +2823,7 @@ def transform_compressible(items, constants, labels):
             NameEquals('jalr'),
             RegEquals('rd', 0),
             RegNotEquals('rs1', 0),
+            ImmIsStatic(),
             ImmEquals(0),
         ],
         'c.mv': [
@@ -2813,6 +2836,7 @@ def transform_compressible(items, constants, labels):
             NameEquals('addi'),
             RegNotEquals('rd', 0),
             RegNotEquals('rs1', 0),
+            ImmIsStatic(),
             ImmEquals(0),
         ],
         'c.ebreak': [
@@ -2829,11 +2853,13 @@ def transform_compressible(items, constants, labels):
             NameEquals('jalr'),
             RegEquals('rd', 1),
             RegNotEquals('rs1', 0),
+            ImmIsStatic(),
             ImmEquals(0),
         ],
         'c.swsp': [
             NameEquals('sw'),
             RegEquals('rs1', 2),
+            ImmIsStatic(),
             ImmDivisibleBy(4),
             ImmBetween(0, 2**6 * 4 - 1),
         ],
